@@ -75,7 +75,7 @@ CFG = {
         rule="distinct deterministic scenarios completed with >=1 poll and >=1 search step",
     ),
     "C05": dict(
-        profile=dict(name="c05", noise=["none", "auto", "declared", "hetero"], noise_w=[1, 3, 3, 3],
+        profile=dict(name="c05", declared0_p=0.7, noise=["none", "auto", "declared", "hetero"], noise_w=[2, 3, 3, 3],
                      fam_w=[6, 2, 1, 0, 1, 1, 0], knobs=dict(noise_final_samples=0.85), budget_min=30,
                      nfs_choices=[0, 1, 1, 1, 1, 2, 3, 5, 10], sigma_log10=(-2, 1.0), budget_max=160, where_w=[4, 2, 2, 2, 3],
                      budget_kinds=["small", "mid", "mid", "large"], cons_p=0.15),
@@ -90,11 +90,16 @@ CFG = {
         rule="distinct scenarios where the final-sampling clause or the noise-detection clause was actually evaluated",
     ),
     "C09": dict(
-        profile=dict(name="c09", rare_knobs=0.3, gate_p=0.2, budget_kinds=["tiny", "tiny", "small", "small", "mid"], budget_min=4, noisy_budget_min=4,
+        profile=dict(name="c09", rare_knobs=0.3, gate_p=0.2, declared0_p=0.15, budget_kinds=["tiny", "tiny", "small", "small", "mid"], budget_min=4, noisy_budget_min=4,
                      knobs=dict(max_iter=0.35, cache_size=0.6, n_search=0.6, fun_eval_start=0.4, n_train=0.4,
                                 noise_final_samples=0.7, tol_mesh=0.3, noise_size=0.3),
                      fam_w=[4, 2, 2, 2, 1, 1, 3], cons_p=0.4, cons_w=[2, 2, 3, 2, 1, 3, 2], noise_w=[3, 2, 3, 3]),
         n=dict(quick=192, thorough=10000), faulted=0.3, fault_kinds=["predict", "fit1"],
+        # specified noise with the start already optimal in low dimension: the first record of the log is
+        # observed again and again (repeat merges into record 0)
+        extra=[(dict(name="c09x0", D=[1, 1, 2], noise=["hetero"], noise_w=[1], where=["x0"], where_w=[1], x0=["inside"], x0_w=[1],
+                     fam=["quad", "abs"], fam_w=[3, 1], cons_p=0.0, sigma_log10=(-3, -1), budget_kinds=["mid"], geom=["sym", "asym"], geom_w=[1, 1],
+                     knobs=dict(noise_final_samples=0.5)), 16, 300)],
         nontrivial=lambda r: r["outcome"] in ("completed", "exception", "ctor_crash"),
         rule="distinct valid scenarios that were constructed and run to an outcome (completed or crashed)",
     ),
@@ -139,7 +144,7 @@ CFG = {
         rule="distinct scenarios completed with >=2 evolution-strategy calls, each judged against all acquisition values it computed",
     ),
     "C19": dict(
-        profile=dict(name="c19", noise_w=[3, 2, 3, 3], fam_w=[6, 2, 1, 1, 1, 1, 1], knobs=dict(noise_final_samples=0.6),
+        profile=dict(name="c19", declared0_p=0.2, noise_w=[3, 2, 3, 3], fam_w=[6, 2, 1, 1, 1, 1, 1], knobs=dict(noise_final_samples=0.6),
                      budget_kinds=["small", "mid", "mid"], budget_min=25),
         n=dict(quick=96, thorough=3000),
         nontrivial=lambda r: r["outcome"] == "completed" and r["n_polls"] >= 2,
